@@ -40,6 +40,27 @@ touched:
 The change may be in the anchored files or anywhere else in the package, but it must NOT repeat a site or mechanism listed above.
 Think about which OBSERVABLE of the property (listed under "observe_at") your change corrupts and make sure the demo shows it
 through that public observable.""",
+    6: """Earlier rounds already covered: wrong-variable / dropped-condition slips at the anchored site; memoisation caches that go
+stale; zero-is-falsy slips; `is` vs `==`; dataclass / __eq__ / __hash__ changes; unstable sorting; in-place mutation and aliasing
+(copy vs deepcopy); int-vs-float dtype slips; duck typing; shared transform helpers; module-level mutable constants; behaviour that
+scales with coordinate magnitude; options not forwarded / indexed by the wrong label position; zip / dict-order / loop-variable /
+early-break iteration slips; angle wrap-around and quaternion-order slips; precomputing before sorting.
+This time work from the STATEMENT rather than from the code: split the statement into its individual clauses and pick the clause
+(or the part of the quantifier: a task variant, a frame, a label family, an alternative entry point, the scene level vs the frame
+level, the 2D vs the 3D variant, an optional argument) that you judge LEAST likely to be exercised by someone who tests the
+property's main clause. Then break ONLY that clause, with one of these mechanisms:
+ (a) ALTERNATIVE ENTRY POINTS that should agree but no longer do: a classmethod / from_* constructor vs __init__, a keyword
+     argument vs its positional form, a convenience wrapper vs the function it wraps, the 2D vs the 3D branch of one function,
+     the scene-level vs the frame-level path, a str vs enum argument, a list vs tuple vs numpy-array argument;
+ (b) STATE CARRIED BETWEEN CALLS: an accumulator that is not reset, a class attribute used where an instance attribute is
+     meant, a mutable default argument, a generator / iterator consumed twice, a result list extended instead of replaced;
+ (c) ERROR HANDLING: a try/except that became broader and now swallows a legitimate error (or converts it into a default
+     value), a validation that moved after its first use, an `assert` replaced by a silent clamp, raising on a legitimate empty
+     input, returning None / NaN / inf where the statement promises a value (or the other way round);
+ (d) TWO COOPERATING SITES that are each plausible alone: e.g. a helper that starts returning a slightly different type /
+     unit / ordering together with a caller that is not adapted, so that only one path through the caller is affected.
+The change may be anywhere in the package but must NOT repeat a site or mechanism listed above.
+Make sure the demo shows the violation through one of the public observables listed under "observe_at".""",
 }
 
 TEMPLATE = """You are helping to measure how sensitive a verification effort is. You will SEED A BUG.
